@@ -340,6 +340,7 @@ def explore(body, params=None, name="", *, max_paths=20000, budget_s=None, stop_
         core.set_ctx(c)
         res.paths += 1
         I = Interp(**interp_kwargs)
+        c.interp = I   # models that must run user-registered callbacks (codec error handlers) use it
         X = SymInputs(c, active_known)
         bparams = {k: v for k, v in params.items() if k != "_ctx"}
         try:
